@@ -162,7 +162,7 @@ def check_c07(pid, tier, seed, replay=None):
     bindir = vlib.build('asan')
     quick = (tier != 'thorough')
     scs = []
-    files = ['B','C','D','E','H','I','J','K','N','P','V','X'] + ([] if quick else ['A','F','G','L','M','O','Q'])
+    files = ['B','C','D','E','H','I','J','K','N','P','V','X','ZI','ZM'] + ([] if quick else ['A','F','G','L','M','O','Q','ZJ','ZK'])      # ZI..ZM: links of headers only
     if quick: files_hist = files + ['F']
     else: files_hist = files
     # TLC-generated histories (spec -> code)
@@ -333,7 +333,7 @@ def check_c08(pid, tier, seed, replay=None):
     t0 = time.time(); rng = random.Random(seed*7919+8)
     bindir = vlib.build('asan')
     quick = (tier != 'thorough')
-    files = ['B','C','D','H','I','J','N','P','F','V','X'] + ([] if quick else ['A','E','G','K','L','M','O','Q'])
+    files = ['B','C','D','H','I','J','N','P','F','V','X','ZI','ZM'] + ([] if quick else ['A','E','G','K','L','M','O','Q','ZJ','ZK'])
     scs = []
     for f in files:
         big = f in ('F','G','M')
@@ -513,7 +513,7 @@ def check_c19(pid, tier, seed, replay=None):
     t0 = time.time(); rng = random.Random(seed*7919+19)
     bindir = vlib.build('asan')
     quick = (tier != 'thorough')
-    files = ['B','C','D','E','I','N','K','T'] + ([] if quick else ['A','H','J','L','M','P','Q','F','R','S'])
+    files = ['B','C','D','E','I','N','K','T','ZM'] + ([] if quick else ['A','H','J','L','M','P','Q','F','R','S','ZI','ZJ'])
     scs = []
     for f in files:
         nl = nlinks(f)
